@@ -18,9 +18,11 @@
    writer.go / delete.go are written explicitly ([u32]).
 
    Simplifications (stated, not hidden):
-   - one fresh DB on an empty FS, no reopen: fileController.writers.unopened is empty, every
-     data file has an entry in writers.open; descriptor-limit paths (gcWriters/gcReaders,
-     blocking on release) and GarbageCollect are not modelled;
+   - a DB that starts on an empty FS; a restart ([Reopen]) reloads the in-memory index
+     unchanged and leaves no file in use (writers.open / writers.unopened are not told
+     apart: both hold files that are not in use and acquirable below the nominal size);
+     descriptor-limit paths (gcWriters/gcReaders, blocking on release) and GarbageCollect
+     are not modelled;
    - Go's map iteration order in acquireWriter is an explicit oracle argument ([key]) of
      the operations that acquire a file;
    - uint16(counter) file keys are not reduced mod 2^16 (fewer than 65536 files);
